@@ -395,6 +395,10 @@ where
         return Err(SnapshotLoadError::MachineNotSupported.into());
     }
 
+    // Nothing of the previously running program may survive
+    emulator.cpu.reset_execution_state();
+    emulator.controller.unlock_paging();
+
     // ZXST Block Header
     asset.seek(SeekFrom::Start(cursor_pos))?;
     let mut block_header = [0u8; ZXST_BLOCK_HEADER_SIZE];
